@@ -177,6 +177,8 @@ def strategy_(d, tier):
     case = dict(test=name, opts=chosen, place=d.weighted([(4, "argv"), (2, "ascmd"), (2, "keyenv"), (2, "keyargv")]),
                 lang=d.weighted([(3, "C"), (1, "de_DE"), (1, "en_US")]), cwd=d.bool(0.25), outdir=d.bool(0.25),
                 quiet=d.bool(0.7))
+    if case["place"] in ("keyenv", "keyargv"):
+        case["keyinc"] = d.weighted([(2, 0), (1, 1), (2, 2)])
     if d.bool(0.45):
         # a line-edited variant of the golden program (other addresses, distances, statement order)
         case["var"] = variants.ops_strategy(d)
@@ -257,7 +259,12 @@ def one_run(t, case, toks, d, tag):
             else:
                 lines.append(toks[i])
                 i += 1
-        run.write_files(wd, {"opts.key": "\n".join(lines) + "\n"})
+        if case.get("keyinc"):
+            # the include path moves into the key file as well, as its last line - with or without a line end
+            k = argv.index("-i")
+            del argv[k:k + 2]
+            lines.append("-i " + asl.INCLUDE_DIR)
+        run.write_files(wd, {"opts.key": "\n".join(lines) + ("" if case.get("keyinc") == 2 else "\n")})
         if place == "keyenv":
             env["ASCMD"] = "@opts.key"
         else:
@@ -375,7 +382,7 @@ def fixed_cases(tier):
         if not any(x[0] in ("L", "l", "OLIST") for x in ops):
             ops.append(["L", None])
         out.append(dict(test=t, opts=ops, place=places[i % 4], lang=["C", "de_DE", "en_US"][i % 3], cwd=(i % 5 == 0),
-                        outdir=(i % 4 == 1), quiet=(i % 3 != 0)))
+                        outdir=(i % 4 == 1), quiet=(i % 3 != 0), keyinc=(i // 4) % 3 if places[i % 4].startswith("key") else 0))
     # complete single-option coverage: every golden test with every report option on its own
     phase = engine.seed_from_env() % 2
     for i, t in enumerate(names):
